@@ -1011,6 +1011,84 @@ class FakeTime:
         return 0.0
 
 
+def _make_math():
+    """`math` for patched namespaces: the C functions that the host modules may call on numbers, re-stated in Python
+    over the proxies (isclose follows CPython's mathmodule.c line by line); everything else is the stock module."""
+    import math as _m
+    ns = types.SimpleNamespace(**{k: getattr(_m, k) for k in dir(_m) if not k.startswith("__")})
+
+    def _symbolic(*xs):
+        return any(_real_isinstance(x, (SymInt, SymFloat, SymBool, SymReal)) for x in xs)
+
+    def _num(x):
+        if _real_isinstance(x, SymReal):
+            return x
+        return p_float(x)
+
+    def isclose(a, b, *, rel_tol=1e-09, abs_tol=0.0):
+        if not _symbolic(a, b, rel_tol, abs_tol):
+            return _m.isclose(a, b, rel_tol=rel_tol, abs_tol=abs_tol)
+        if rel_tol < 0.0 or abs_tol < 0.0:
+            raise ValueError("tolerances must be non-negative")
+        a, b = _num(a), _num(b)
+        if a == b:
+            return True
+        if not _real_isinstance(a, SymReal) and not _real_isinstance(b, SymReal):
+            if isinf(a) or isinf(b):
+                return False
+        diff = p_abs(b - a)
+        return bool(diff <= p_abs(rel_tol * b)) or bool(diff <= p_abs(rel_tol * a)) or bool(diff <= abs_tol)
+
+    def isinf(x):
+        if _real_isinstance(x, SymFloat):
+            return _mk_bool(z3.fpIsInf(x.z))
+        if _symbolic(x):
+            return False
+        return _m.isinf(x)
+
+    def isnan(x):
+        if _real_isinstance(x, SymFloat):
+            return _mk_bool(z3.fpIsNaN(x.z))
+        if _symbolic(x):
+            return False
+        return _m.isnan(x)
+
+    def isfinite(x):
+        if _real_isinstance(x, SymFloat):
+            return _mk_bool(z3.Not(z3.Or(z3.fpIsNaN(x.z), z3.fpIsInf(x.z))))
+        if _symbolic(x):
+            return True
+        return _m.isfinite(x)
+
+    def fabs(x):
+        return p_abs(_num(x)) if _symbolic(x) else _m.fabs(x)
+
+    def floor(x):
+        if _real_isinstance(x, SymFloat):
+            return _float_to_int(x.z, z3.RTN())
+        if _real_isinstance(x, (SymInt, SymBool)):
+            return p_int(x)
+        return _m.floor(x)
+
+    def ceil(x):
+        if _real_isinstance(x, SymFloat):
+            return _float_to_int(x.z, z3.RTP())
+        if _real_isinstance(x, (SymInt, SymBool)):
+            return p_int(x)
+        return _m.ceil(x)
+
+    def trunc(x):
+        if _real_isinstance(x, SymFloat):
+            return _float_to_int(x.z, RTZ)
+        if _real_isinstance(x, (SymInt, SymBool)):
+            return p_int(x)
+        return _m.trunc(x)
+
+    ns.isclose, ns.isinf, ns.isnan, ns.isfinite, ns.fabs = isclose, isinf, isnan, isfinite, fabs
+    ns.floor, ns.ceil, ns.trunc = floor, ceil, trunc
+    return ns
+
+
 class HostWorld:
     """The real Reduino host modules executed under patched builtins, isolated from sys.modules."""
 
@@ -1133,6 +1211,10 @@ class HostWorld:
             return self.fake_sys
         if absname == "time":
             return FakeTime
+        if absname == "math" and self.patched:
+            if not hasattr(self, "_math"):
+                self._math = _make_math()
+            return self._math
         if absname == "importlib":
             ns = types.SimpleNamespace(import_module=lambda n, package=None: self.load(n))
             return ns
@@ -1373,6 +1455,8 @@ class SymReal:
         return SymReal(c / self.z)
 
     def __neg__(self): return SymReal(-self.z)
+    def __abs__(self): return SymReal(z3.If(self.z >= 0, self.z, -self.z))
+    def __pos__(self): return self
 
     def _cmp(self, o, f):
         c = self._c(o)
@@ -1394,6 +1478,22 @@ class SymReal:
 
 def sym_real(name):
     e = eng()
+    if _real_isinstance(e, ConcreteEngine):
+        from fractions import Fraction
+        v = e.assignment.get(name)
+        v = Fraction(0) if v is None else Fraction(v)
+        e.inputs.append((name, v))
+        return v
     var = z3.Real(name)
     e.inputs.append((name, var))
     return SymReal(var)
+
+
+def zreal(x):
+    """z3 Real term of an exact-real proxy or of a concrete number (replay)."""
+    if _real_isinstance(x, SymReal):
+        return x.z
+    from fractions import Fraction
+    if _real_isinstance(x, _real_float):
+        x = Fraction(x)
+    return z3.RealVal(str(Fraction(x)))
